@@ -1202,5 +1202,28 @@ PROP = Prop(
                   "extract/traversal.py (ast reader of the map_* handlers; unknown shapes are errors)",
                   "extract/dispatch.py (ast reader of Mapper.__call__ / rec_fallback / combine; the "
                   "meaning of its statement language = lean/PV/Model/DispatchTable.lean `dRun`)"],
+    level_text="Lean theorems (all class hierarchies, handler sets, trees, argument tuples): dispatch "
+               "reaches the node's own handler, else the nearest ancestor's the mapper implements, "
+               "else the unsupported hook; foreign objects go to their handlers (dispatch_nearest, "
+               "dispatch_copies_agree); the walk visits every node occurrence once, pre-order visit / "
+               "post-order post_visit, children skipped when visit is false (walk_eq_spec); combine "
+               "mappers fold in every child (combineL_eq_leaves); the identity mapper returns an equal "
+               "tree, the same object when nothing changed (identity_*_partial); extra arguments are "
+               "forwarded unchanged. The handler tables of Walk/Identity/Combine/CallbackMapper and the "
+               "dispatch code itself (Mapper.__call__ / rec_fallback, read statement by statement) are "
+               "regenerated from the source on every run and proved to be what the models implement "
+               "(walk/combineL/substM_table_step_current + *_unique_current, fields_once_current, "
+               "dispatch_call/fallback/foreign_eq_table_current, dispatch_nearest_table_current, "
+               "collector_combine_current).",
+    level_note="Trusted: Lean kernel; the readers extract/traversal.py, extract/dispatch.py and the "
+               "meaning of their table languages (tied by correspondence streams); instrumented "
+               "mapper subclasses of the harness. multivector / numpy / polynomial handlers are "
+               "covered only by whole-table checks (rows_ok, fields_once), not by a traversal model; "
+               "CachedMapper.__call__ is tied through C05's extractor and the dispatch stream. "
+               "History streams (several mapper classes in one process in a chosen order; one "
+               "collector instance over trees sharing subtrees) are correspondence/oracle only.",
+    technique="Lean 4 proofs about dispatch and traversal models + tables and dispatch code regenerated "
+              "from source with interpreter-equals-model theorems + differential correspondence with "
+              "instrumented mappers (single calls and histories)",
     design_ref="DESIGN.md §4 C04",
 )
